@@ -250,7 +250,7 @@ func init() {
 	register(&CheckDef{
 		ID:    "C14",
 		Title: "Behaviour is independent of index type, shard count, I/O type and limits",
-		Reach: []string{"done", "files-compared", "batch", "restarted", "spanning-iterator", "seek-positioned"},
+		Reach: []string{"done", "files-compared", "batch", "restarted", "spanning-iterator", "seek-positioned", "closed-handles-compared"},
 		Jobs: func(tier string) []JobSpec {
 			var js []JobSpec
 			add := func(name string, params map[string]int64) {
@@ -283,6 +283,8 @@ func init() {
 			// three keys over one vs two shards: the merged iteration (heap of per-shard iterators) has to agree
 			// with the single-shard one, including after a partial pass + Rewind and after Seek
 			add("three-keys-1-vs-2-shards", merge(base, p("pool", 3, "k", 3, "ops", opPut, "vlens", 1, "index", 1, "shards", 1, "b_index", 1, "b_shards", 2)))
+			add("closed-handles-btree-vs-hashmap", merge(base, p("k", 2, "ops", opPut|opDelete, "vlens", 1, "index", 1, "shards", 2, "b_index", 3, "b_shards", 1, "afterclose", 1)))
+			add("closed-handles-skiplist-vs-btree", merge(base, p("k", 2, "ops", opPut|opDelete, "vlens", 1, "index", 2, "shards", 1, "b_index", 1, "b_shards", 3, "afterclose", 1)))
 			add("skiplist-vs-btree-keyfamily1", merge(base, p("ckeys", 1, "k", 3, "ops", opPut|opDelete, "vlens", 1, "index", 2, "shards", 1, "b_index", 1, "b_shards", 2)))
 			add("skiplist-vs-hashmap-keyfamily4", merge(base, p("ckeys", 4, "k", 3, "ops", opPut|opDelete, "vlens", 1, "index", 2, "shards", 2, "b_index", 3, "b_shards", 1)))
 			add("hashmap-vs-btree-xxhash-collision-keys-batch", merge(base, p("ckeys", 5, "k", 2, "ops", opPut|opDelete|opBatch, "vlens", 1, "index", 3, "shards", 16, "b_index", 1, "b_shards", 1)))
@@ -755,6 +757,8 @@ func init() {
 				js = append(js, JobSpec{Name: "sequential-" + idxName[idx], Harness: "root", Func: "verifHarnessC16", Params: p("index", idx, "shards", 1, "maxfail", 14), Scale: scaleDF(32)})
 			}
 			js = append(js, JobSpec{Name: "sequential-pending-merge-hashmap", Harness: "root", Func: "verifHarnessC16", Params: p("index", 3, "shards", 1, "maxfail", 14, "pendingmerge", 1), Scale: scaleDF(32)})
+			// EnableBackgroundMerge: Open starts a goroutine (its ticker never fires in the engine's time model, it waits for Close)
+			js = append(js, JobSpec{Name: "sequential-background-merge-enabled", Harness: "root", Func: "verifHarnessC16", Params: p("index", 3, "shards", 1, "maxfail", 14, "bgmerge", 1, "preempt", 0), Scale: scaleDF(32)})
 			if tier == "thorough" {
 				js = append(js, JobSpec{Name: "sequential-pending-merge-btree-mmap", Harness: "root", Func: "verifHarnessC16", Params: p("index", 1, "shards", 2, "maxfail", 30, "pendingmerge", 1, "io", 1), Scale: scaleDF(32)})
 			}
@@ -803,6 +807,8 @@ func init() {
 			add("mmap-merge-restart-btree", merge(base, p("k", k+1, "ops", opPut|opMerge|opRestart, "io", 1, "index", 1)))
 			// the same directory is backed up into twice, with Delete / Merge / restart (adoption) in between
 			add("std-reuse-after-merge", merge(base, p("k", 2, "ops", opPut|opDelete, "io", 0, "reuse", 1, "k2", 3, "ops2", opDelete|opMerge|opRestart)))
+			// Merge BEFORE the first backup, adoption (restart) between the two backups into the same directory
+			add("std-merge-backup-adopt-backup", merge(base, p("k", 3, "ops", opPut|opDelete|opMerge, "io", 0, "reuse", 1, "k2", 1, "ops2", opRestart, "dfs_lo", 20, "dfs_hi", 60)))
 			add("relative-directories-std", merge(base, p("k", 2, "ops", opPut|opDelete, "io", 0, "reldir", 1, "dfs_lo", 100, "dfs_hi", 100)))
 			add("relative-directories-mmap", merge(base, p("k", 2, "ops", opPut|opDelete, "io", 1, "reldir", 1)))
 			add("cfgsweep-k2", merge(base, p("cfgsweep", 2, "k", 2, "ops", opPut|opDelete, "dfs_lo", 100, "dfs_hi", 100)))
@@ -913,6 +919,7 @@ func init() {
 				add("2x1-merge", p("threads", 2, "opsper", 1, "pool", 1, "index", 3, "shards", 1, "preempt", 1, "merge", 1, "preput", 1), 0)
 				add("1x2-merge-rotating-writer", p("threads", 1, "opsper", 2, "onlyput", 1, "pool", 2, "index", 3, "shards", 1, "preempt", 2, "merge", 1, "preput", 1, "dfs_lo", 60, "dfs_hi", 60), 0)
 				add("2x1-sync-always", p("threads", 2, "opsper", 1, "pool", 1, "index", 3, "shards", 1, "preempt", 3, "preput", 1, "sync", 1), 0)
+				add("2x1-put-vs-batch-commit", p("threads", 2, "opsper", 1, "pool", 1, "index", 3, "shards", 1, "preempt", 3, "preput", 1, "withbatch", 1, "onlyput", 1), 0)
 				add("2x1-gets-in-different-blocks", p("threads", 2, "opsper", 1, "pool", 2, "index", 1, "shards", 1, "preempt", 3, "preput", 2, "onlyget", 1), 0)
 				add("2x1-different-blocks-skiplist", p("threads", 2, "opsper", 1, "pool", 2, "index", 2, "shards", 1, "preempt", 2, "preput", 2), 0)
 				add("2x1-sync-threshold-btree", p("threads", 2, "opsper", 1, "pool", 1, "index", 1, "shards", 1, "preempt", 2, "preput", 1, "sync", 2), 0)
